@@ -158,6 +158,22 @@ Definition heartbeat_shape_ok : bool :=
   all_under LHb KSendHeartbeat src_Heartbeat_check_for_life_signs &&
   rechecked_before_send src_Heartbeat_check_for_life_signs.
 
+(* ---- C10 / C11: the channel reads CLOSED only after a close frame for it was written:
+        a close() that finds somebody else closing (state CLOSING, read under the close lock
+        together with the is-open test) leaves the final CLOSED to them; the one close() that
+        moved the channel to CLOSING writes Channel.Close first; the reader writes CloseOk
+        before it marks the channel CLOSED ---- *)
+Definition closefree_shape_ok : bool :=
+  once KTestClosing src_Channel_close && all_under LClose KTestClosing src_Channel_close &&
+  before KTestClosing KSetClosing src_Channel_close &&
+  once KSetClosed src_Channel_close &&
+  has_sublist [TCall KUnlessClosing; TIf; TWith LClose; TCall KSetClosed; TEndWith; TEndIf]
+              src_Channel_close tok_eqb &&
+  before KRpcRequest KSetClosed src_Channel_close &&
+  once KSetClosed src_Channel_close_channel &&
+  before KSetClosing KConnWriteFrame src_Channel_close_channel &&
+  before KConnWriteFrame KSetClosed src_Channel_close_channel.
+
 (* ---- C10: number chosen, registered and opened under Connection.lock ---- *)
 Definition alloc_shape_ok : bool :=
   all_under LConn KNextId src_Connection_channel &&
